@@ -283,14 +283,13 @@ class FileSystem(object):
         base_path = os.path.abspath(_convert(self.base_path))
         out_path = os.path.join(base_path, path)
         assert out_path.startswith(base_path + path_sep)
-        if os.path.islink(out_path):
+        if follow_link and os.path.islink(out_path):
             link_target = os.readlink(out_path)
             # Link can be absolute or relative -> absolute
             link = os.path.normpath(os.path.join(os.path.dirname(path), link_target))
-            if follow_link:
-                out_path = self.resolve_path(link)
-            else:
-                out_path = link
+            out_path = self.resolve_path(link)
+        # If the link must not be followed, the sandboxed path of the link
+        # itself is returned (as expected by `readlink`)
         return out_path
 
     def get_path_inode(self, real_path):
